@@ -65,18 +65,44 @@ def SeqPost (env : Env) (st : St) (out : List UInt8) (s' : St) : Prop :=
   ∃ sq, pstep (rem env.src st.ip) = .seq sq (rem env.src s'.ip) ∧ s'.op = st.op + sq.lits.length + sq.ml ∧
     (1 ≤ sq.off → sq.off ≤ (out ++ sq.lits).length ∧ ∃ out2, copyMatch (out ++ sq.lits) sq.off sq.ml = some out2 ∧ Rel env s'.buf s'.op out2)
 
-/-- what an iteration leaves behind: a whole sequence consumed, or the final literals -/
-def StepPost (env : Env) (st : St) (out : List UInt8) : Next → Prop
+/-- a whole step: a sequence consumed, or the final literals -/
+def FullPost (env : Env) (st : St) (out : List UInt8) : Next → Prop
   | .done s' => ∃ l, pstep (rem env.src st.ip) = .fin l ∧ Rel env s'.buf s'.op (out ++ l)
   | .safe s' => SeqPost env st out s'
   | .fast s' => SeqPost env st out s'
 
-/-- forward hypothesis of an iteration: the specification's step is valid here, with the room the end-of-block rules guarantee -/
-def VIter (N op outLen : Nat) (inp : List UInt8) : Prop :=
+/-- partial decoding stopped inside a step: the output is the previous output extended by part of the literals,
+    or by the literals and part of the match -/
+def StepPrefix (inp out outP : List UInt8) : Prop :=
   match pstep inp with
-  | .fin l => op + l.length ≤ N
-  | .seq s rest => 1 ≤ s.off ∧ s.off ≤ outLen + s.lits.length ∧ op + s.lits.length + 12 ≤ N ∧ op + s.lits.length + s.ml + 5 ≤ N ∧ 6 ≤ rest.length
+  | .fin l => ∃ j, j ≤ l.length ∧ outP = out ++ l.take j
+  | .seq sq _ => (∃ j, j ≤ sq.lits.length ∧ outP = out ++ sq.lits.take j) ∨
+                 (∃ mlen, mlen ≤ sq.ml ∧ copyMatch (out ++ sq.lits) sq.off mlen = some outP)
   | .fail => False
+
+/-- partial decoding filled the output inside this step -/
+def PartialStop (env : Env) (N : Nat) (st : St) (out : List UInt8) (next : Next) : Prop :=
+  (nextSt next).op = N ∧
+  (∃ outP, Rel env (nextSt next).buf (nextSt next).op outP ∧ StepPrefix (rem env.src st.ip) out outP) ∧
+  (∀ s', (next = .safe s' ∨ next = .fast s') → ∃ sq, pstep (rem env.src st.ip) = .seq sq (rem env.src s'.ip))
+
+/-- forward hypothesis of an iteration: the specification's step is valid here; for full decoding, with the room the
+    end-of-block rules guarantee -/
+def VIter (env : Env) (N op outLen : Nat) (inp : List UInt8) : Prop :=
+  match pstep inp with
+  | .fin l => env.partialD = true ∨ op + l.length ≤ N
+  | .seq s rest => 1 ≤ s.off ∧ s.off ≤ outLen + s.lits.length ∧
+      (env.partialD = true ∨ (op + s.lits.length + 12 ≤ N ∧ op + s.lits.length + s.ml + 5 ≤ N)) ∧ 6 ≤ rest.length
+  | .fail => False
+
+/-- what an iteration leaves behind.  Full decoding: a whole step of the specification.  Partial decoding, on a valid step:
+    a whole step, or a stop with the output full. -/
+def StepPost (env : Env) (N : Nat) (st : St) (out : List UInt8) (next : Next) : Prop :=
+  (env.partialD = true → VIter env N st.op out.length (rem env.src st.ip)) →
+    (FullPost env st out next ∨ (env.partialD = true ∧ PartialStop env N st out next))
+
+theorem StepPost.of_full {env : Env} {N : Nat} {st : St} {out : List UInt8} {next : Next} (h : FullPost env st out next) :
+    StepPost env N st out next := fun _ => Or.inl h
 
 /-- the literals of the sequence at `ip` -/
 def litsAt (src : Bytes) (ip length : Nat) : List UInt8 := (rem src ip).take length
@@ -97,32 +123,74 @@ theorem rd16_off16 {src : Bytes} {p v : Nat} (h : rd16 src p = .ok v) : v = off1
   rw [getElem!_pos src p (by omega), getElem!_pos src (p + 1) hi]
   exact hv
 
+theorem litsAt_take (src : Bytes) (ip length j : Nat) (hj : j ≤ length) : (litsAt src ip length).take j = litsAt src ip j := by
+  unfold litsAt
+  rw [List.take_take, Nat.min_eq_left hj]
+
+/-- the model's literal copy: `Rel` for the output extended by the first `n` literals -/
+theorem rel_lits (env : Env) (st : St) (ip n m : Nat) (out : List UInt8) (hrel : Rel env st.buf st.op out) (hL : env.low.toNat ≤ st.op)
+    (b : Bytes) (hb : copyIn st.buf st.op env.src ip .srcRead m = .ok b) (hn : n ≤ m) (hin : ip + n ≤ env.src.size) :
+    Rel env b (st.op + n) (out ++ litsAt env.src ip n) := by
+  obtain ⟨c1, c2, c3, _⟩ := copyIn_spec _ _ _ _ _ _ _ hb
+  have := hrel.lits (b := b) hL (fun j hj => c2 j (Or.inl hj)) (litsAt env.src ip n) (by
+    intro i hi
+    rw [litsAt_length env.src ip n hin] at hi
+    rw [c3 i (by omega), litsAt_get env.src ip n i hi])
+  rw [litsAt_length env.src ip n hin] at this
+  exact this
+
 /-- from the post-condition of the match to the post-condition of the iteration -/
-theorem seqPost_of_match (env : Env) (st : St) (ip length : Nat) (h0 : st.ip < env.src.size) (hip : ip ≤ env.src.size)
+theorem stepPost_of_match (env : Env) (N : Nat) (st : St) (ip length : Nat) (h0 : st.ip < env.src.size) (hip : ip ≤ env.src.size)
     (hrf : readField (env.src[st.ip].toNat / 16) (rem env.src (st.ip + 1)) = some (length, rem env.src ip))
-    (hin : ip + length + 2 ≤ env.src.size) (out : List UInt8) (s1 s' : St) (ml : Nat) (hs1 : s1.op = st.op + length)
-    (hrf2 : readField (env.src[st.ip].toNat % 16) (rem env.src (ip + length + 2)) = some (ml - 4, rem env.src s'.ip)) (h4 : 4 ≤ ml)
-    (hmp : MatchPost env s1 s'.ip (off16 env.src (ip + length)) ml (out ++ litsAt env.src ip length) s') : SeqPost env st out s' := by
+    (hin : ip + length + 2 ≤ env.src.size) (out : List UInt8) (s1 : St) (ml ip' : Nat) (hs1 : s1.op = st.op + length)
+    (hrf2 : readField (env.src[st.ip].toNat % 16) (rem env.src (ip + length + 2)) = some (ml - 4, rem env.src ip')) (h4 : 4 ≤ ml)
+    (next : Next) (hmp : MatchPost env N s1 ip' (off16 env.src (ip + length)) ml (out ++ litsAt env.src ip length) next) :
+    StepPost env N st out next := by
   have hp := pstep_rem env.src st.ip ip length h0 hip hrf
   rw [if_neg (by omega), if_neg (by omega), if_neg (by omega), hrf2] at hp
   dsimp only at hp
-  refine ⟨_, hp, ?_, ?_⟩
-  · dsimp only
-    rw [show (List.take length (rem env.src ip)).length = length from litsAt_length env.src ip length (by omega), hmp.2.1, hs1]
-    omega
-  · dsimp only
-    intro ho
-    rw [show ml - 4 + 4 = ml by omega]
-    exact hmp.2.2 ho
+  rw [show ml - 4 + 4 = ml by omega] at hp
+  have hll : (List.take length (rem env.src ip)).length = length := litsAt_length env.src ip length (by omega)
+  obtain ⟨s', mlen, hm1, hcp, hcase⟩ := hmp
+  rcases hcase with ⟨hml, hn⟩ | ⟨hP, hopN, hns⟩
+  · apply StepPost.of_full
+    subst hml
+    have hsp : SeqPost env st out s' := by
+      rw [← hcp.1] at hp
+      refine ⟨_, hp, ?_, ?_⟩
+      · dsimp only; rw [hll, hcp.2.1, hs1]
+      · dsimp only; exact hcp.2.2
+    rcases hn with hn | hn <;> (subst hn; exact hsp)
+  · intro hv
+    right
+    refine ⟨hP, ?_⟩
+    have hv' := hv hP
+    unfold VIter at hv'
+    rw [hp] at hv'
+    dsimp only at hv'
+    refine ⟨by rw [hns]; exact hopN, ?_, ?_⟩
+    · obtain ⟨_, outP, hc, hr⟩ := hcp.2.2 hv'.1
+      refine ⟨outP, by rw [hns]; exact hr, ?_⟩
+      unfold StepPrefix
+      rw [hp]
+      dsimp only
+      right
+      exact ⟨mlen, hm1, hc⟩
+    · intro s'' hs''
+      have : s'' = s' := by
+        rcases hs'' with h | h <;> (rw [h] at hns; simpa [nextSt] using hns)
+      subst this
+      rw [← hcp.1] at hp
+      exact ⟨_, hp⟩
 
 /-- from the forward hypothesis of the iteration to the forward hypothesis of the match -/
 theorem vmatch_of_viter (env : Env) (N : Nat) (st : St) (ip length : Nat) (h0 : st.ip < env.src.size) (hip : ip ≤ env.src.size)
     (hrf : readField (env.src[st.ip].toNat / 16) (rem env.src (st.ip + 1)) = some (length, rem env.src ip))
-    (hin : ip + length + 2 ≤ env.src.size) (out : List UInt8) (hv : VIter N st.op out.length (rem env.src st.ip)) :
+    (hin : ip + length + 2 ≤ env.src.size) (out : List UInt8) (hv : VIter env N st.op out.length (rem env.src st.ip)) :
     ∃ v rest, readField (env.src[st.ip].toNat % 16) (rem env.src (ip + length + 2)) = some (v, rest) ∧
       (v ≥ 15 → ip + length + 2 + (v - 15) / 255 + 1 + 4 ≤ env.src.size) ∧
       1 ≤ off16 env.src (ip + length) ∧ off16 env.src (ip + length) ≤ (out ++ litsAt env.src ip length).length ∧
-      st.op + length + (v + 4) + 5 ≤ N ∧ st.op + length + 12 ≤ N ∧ 6 ≤ rest.length := by
+      (env.partialD = true ∨ (st.op + length + (v + 4) + 5 ≤ N ∧ st.op + length + 12 ≤ N)) ∧ 6 ≤ rest.length := by
   have hp := pstep_rem env.src st.ip ip length h0 hip hrf
   rw [if_neg (by omega), if_neg (by omega), if_neg (by omega)] at hp
   unfold VIter at hv
@@ -135,26 +203,50 @@ theorem vmatch_of_viter (env : Env) (N : Nat) (st : St) (ip length : Nat) (h0 : 
     dsimp only at hv
     have hl : (List.take length (rem env.src ip)).length = length := litsAt_length env.src ip length (by omega)
     rw [hl] at hv
-    obtain ⟨v1, v2, v3, v4, v5⟩ := hv
-    refine ⟨v, rest, rfl, ?_, v1, ?_, by omega, v3, v5⟩
+    obtain ⟨v1, v2, v3, v5⟩ := hv
+    refine ⟨v, rest, rfl, ?_, v1, ?_, ?_, v5⟩
     · intro hv15
       have := readField_rest_length _ _ _ _ hr hv15 (by omega)
       rw [rem_length] at this
       omega
     · rw [List.length_append, litsAt_length env.src ip length (by omega)]
       exact v2
+    · rcases v3 with v3 | v3
+      · exact Or.inl v3
+      · right; omega
 
 /-- a step of the model that cannot end in a clean error, inside a `Sim` chain -/
 theorem Sim.step {α β} {Q : β → Prop} {V : Prop} {x : Except Err α} {f : α → Except Err β}
     (hnb : ∀ ip, x ≠ .error (.bad ip)) (hf : ∀ a, x = .ok a → Sim Q V (f a)) : Sim Q V (x >>= f) :=
   Sim.bind (P := fun a => x = .ok a) (Sim.of_ok hnb (fun _ h => h)) (fun a h _ => hf a h)
 
-/-- label `safe_literal_copy` (full decoding) -/
+/-- the literals are in place (state `s1`), the offset and the match follow (`_copy_match`): shared by `safe_literal_copy` and the shortcut -/
+theorem lits_then_match (env : Env) (N : Nat) (hw : WF2 env N) (st : St) (ip length : Nat) (h0 : st.ip < env.src.size) (hip : ip ≤ env.src.size)
+    (hrf : readField (env.src[st.ip].toNat / 16) (rem env.src (st.ip + 1)) = some (length, rem env.src ip))
+    (hin : ip + length + 2 ≤ env.src.size) (hd0 : env.dst0 ≤ st.op) (hroom : st.op + length ≤ N) (out : List UInt8)
+    (b : Bytes) (hbsz : b.size = N) (hrel' : Rel env b (st.op + length) (out ++ litsAt env.src ip length)) (offset : Nat)
+    (hoff : offset = off16 env.src (ip + length)) :
+    Sim (StepPost env N st out) (VIter env N st.op out.length (rem env.src st.ip))
+      (copyMatchLbl env ⟨ip + length, st.op + length, b⟩ (ip + length + 2) offset (env.src[st.ip].toNat)) := by
+  apply (copyMatchLbl_sim env N hw ⟨ip + length, st.op + length, b⟩ (ip + length + 2) offset (env.src[st.ip].toNat)
+    hbsz (by dsimp only; omega) hroom _ hrel').mono
+  · rintro next _ ⟨ml, ip', hrf2, h4, _, hmp⟩
+    rw [hoff] at hmp
+    exact stepPost_of_match env N st ip length h0 hip hrf hin out _ ml ip' rfl hrf2 h4 next hmp
+  · intro hv
+    obtain ⟨v, rest, v1, v2, v3, v4, v5, _⟩ := vmatch_of_viter env N st ip length h0 hip hrf hin out hv
+    rw [hoff]
+    refine ⟨v, rest, v1, fun h => by have := v2 h; omega, v3, v4, ?_⟩
+    rcases v5 with v5 | v5
+    · exact Or.inl v5
+    · right; dsimp only; omega
+
+/-- label `safe_literal_copy` -/
 theorem safeLit_sim (env : Env) (N : Nat) (hw : WF2 env N) (st : St) (ip token length : Nat) (h0 : st.ip < env.src.size)
     (htok : token = env.src[st.ip].toNat) (hip : ip ≤ env.src.size)
     (hrf : readField (token / 16) (rem env.src (st.ip + 1)) = some (length, rem env.src ip))
-    (hsz : st.buf.size = N) (hd0 : env.dst0 ≤ st.op) (out : List UInt8) (hrel : Rel env st.buf st.op out) :
-    Sim (StepPost env st out) (VIter N st.op out.length (rem env.src st.ip)) (safeLit env st ip token length) := by
+    (hsz : st.buf.size = N) (hd0 : env.dst0 ≤ st.op) (hop : st.op ≤ N) (out : List UInt8) (hrel : Rel env st.buf st.op out) :
+    Sim (StepPost env N st out) (VIter env N st.op out.length (rem env.src st.ip)) (safeLit env st ip token length) := by
   subst htok
   have hlow2 := hw.wf.low_le
   have hp := pstep_rem env.src st.ip ip length h0 hip hrf
@@ -166,74 +258,142 @@ theorem safeLit_sim (env : Env) (N : Nat) (hw : WF2 env N) (st : St) (ip token l
   by_cases hlast : st.op + length + 12 > N ∨ ip + length + (2 + 1 + 5) > env.src.size
   · rw [if_pos hlast]
     unfold lastLitLen
-    rw [hw.np, hsz]
-    simp only [Bool.false_eq_true, if_false, not_false_eq_true, true_or, if_true]
-    by_cases hbadc : ip + length ≠ env.src.size ∨ st.op + length > N
-    · rw [if_pos hbadc]
-      apply Sim.bad
-      intro hv
-      unfold VIter at hv
-      rw [hp] at hv
-      by_cases a : length > env.src.size - ip
-      · rw [if_pos a] at hv; exact hv
-      · rw [if_neg a] at hv
-        by_cases b : ip + length = env.src.size
-        · rw [if_pos b] at hv
-          dsimp only at hv
-          rw [show (List.take length (rem env.src ip)).length = length from litsAt_length env.src ip length (by omega)] at hv
-          omega
-        · rw [if_neg b] at hv
-          by_cases c : ip + length + 1 = env.src.size
-          · rw [if_pos c] at hv; exact hv
-          · rw [if_neg c] at hv
-            cases hr : readField (env.src[st.ip].toNat % 16) (rem env.src (ip + length + 2)) with
-            | none => rw [hr] at hv; exact hv
-            | some w =>
-              obtain ⟨mlc, inp4⟩ := w
-              rw [hr] at hv
-              dsimp only at hv
-              rw [show (List.take length (rem env.src ip)).length = length from litsAt_length env.src ip length (by omega)] at hv
-              have := readField_suffix _ _ _ _ hr
-              rw [rem_length] at this
-              omega
-    · rw [if_neg hbadc]
-      apply Sim.step (copyIn_nb _ _ _ _ _ _)
+    rw [hsz]
+    by_cases hP : env.partialD = true
+    · -- partial decoding
+      rw [hP]
+      simp only [if_true]
+      generalize hL1 : (if ip + length > env.src.size then env.src.size - ip else length) = L1
+      generalize hL2 : (if st.op + L1 > N then N - st.op else L1) = L2
+      have hL2' : (if st.op + L1 > N then (Except.ok (N - st.op) : Except Err Nat) else Except.ok L1) = Except.ok L2 := by
+        rw [← hL2]; split <;> rfl
+      rw [hL2']
+      apply Sim.step (x := copyIn st.buf st.op env.src ip .srcRead L2) (copyIn_nb _ _ _ _ _ _)
       intro b hb
-      apply Sim.pure
-      obtain ⟨c1, c2, c3, _⟩ := copyIn_spec _ _ _ _ _ _ _ hb
-      rw [if_neg (by omega), if_pos (by omega)] at hp
-      refine ⟨_, hp, ?_⟩
-      have := hrel.lits (b := b) (by omega) (fun j hj => c2 j (Or.inl hj)) (litsAt env.src ip length) (by
-        intro i hi
-        rw [litsAt_length env.src ip length (by omega)] at hi
-        rw [c3 i hi, litsAt_get env.src ip length i hi])
-      rw [litsAt_length env.src ip length (by omega)] at this
-      exact this
+      have hbsz : b.size = N := by rw [(copyIn_spec _ _ _ _ _ _ _ hb).1]; exact hsz
+      by_cases hstop0 : ¬True ∨ st.op + L2 = N ∨ ip + L2 + 2 ≥ env.src.size
+      · rw [if_pos hstop0]
+        have hstop : st.op + L2 = N ∨ ip + L2 + 2 ≥ env.src.size := by
+          rcases hstop0 with h | h
+          · exact absurd trivial h
+          · exact h
+        apply Sim.pure
+        intro hv
+        have hv' := hv hP
+        unfold VIter at hv'
+        rw [hp] at hv'
+        by_cases a : length > env.src.size - ip
+        · rw [if_pos a] at hv'; exact hv'.elim
+        · rw [if_neg a] at hv' hp
+          have e1 : L1 = length := by rw [← hL1, if_neg (by omega)]
+          subst e1
+          have hL2le : L2 ≤ L1 ∧ st.op + L2 ≤ N ∧ (L2 < L1 → st.op + L2 = N) := by
+            rw [← hL2]; split <;> omega
+          have hrelP : Rel env b (st.op + L2) (out ++ litsAt env.src ip L2) :=
+            rel_lits env st ip L2 L2 out hrel (by omega) b hb (Nat.le_refl _) (by omega)
+          by_cases bb : ip + L1 = env.src.size
+          · rw [if_pos bb] at hv' hp
+            by_cases hfullc : L2 = L1
+            · left
+              subst hfullc
+              exact ⟨_, hp, hrelP⟩
+            · right
+              refine ⟨hP, by dsimp only [nextSt]; omega, ⟨_, hrelP, ?_⟩, fun s' hs' => by rcases hs' with h | h <;> cases h⟩
+              unfold StepPrefix
+              rw [hp]
+              exact ⟨L2, by rw [show List.take L1 (rem env.src ip) = litsAt env.src ip L1 from rfl, litsAt_length env.src ip L1 (by omega)]; omega, by rw [show List.take L1 (rem env.src ip) = litsAt env.src ip L1 from rfl, litsAt_take env.src ip L1 L2 (by omega)]⟩
+          · rw [if_neg bb] at hv' hp
+            by_cases c : ip + L1 + 1 = env.src.size
+            · rw [if_pos c] at hv'; exact hv'.elim
+            · rw [if_neg c] at hv' hp
+              cases hr : readField (env.src[st.ip].toNat % 16) (rem env.src (ip + L1 + 2)) with
+              | none => rw [hr] at hv'; exact hv'.elim
+              | some w =>
+                obtain ⟨mlc, inp4⟩ := w
+                rw [hr] at hv' hp
+                dsimp only at hv' hp
+                have hsuf := readField_suffix _ _ _ _ hr
+                rw [rem_length] at hsuf
+                right
+                refine ⟨hP, by dsimp only [nextSt]; omega, ⟨_, hrelP, ?_⟩, fun s' hs' => by rcases hs' with h | h <;> cases h⟩
+                unfold StepPrefix
+                rw [hp]
+                dsimp only
+                left
+                exact ⟨L2, by rw [show List.take L1 (rem env.src ip) = litsAt env.src ip L1 from rfl, litsAt_length env.src ip L1 (by omega)]; omega, by rw [show List.take L1 (rem env.src ip) = litsAt env.src ip L1 from rfl, litsAt_take env.src ip L1 L2 (by omega)]⟩
+      · rw [if_neg hstop0]
+        have hstop : ¬ (st.op + L2 = N ∨ ip + L2 + 2 ≥ env.src.size) := fun h => hstop0 (Or.inr h)
+        -- the output is not full and more input follows: `L2` is the whole literal run, the match comes next
+        apply Sim.step (rd16_nb _ _)
+        intro offset hoff
+        obtain ⟨ho1, ho2⟩ := rd16_off16 hoff
+        have hL2le : L2 ≤ L1 ∧ st.op + L2 ≤ N ∧ (L2 < L1 → st.op + L2 = N) := by
+          rw [← hL2]; split <;> omega
+        have e2 : L2 = L1 := by
+          rcases Nat.lt_or_ge L2 L1 with h | h
+          · exact absurd (Or.inl (hL2le.2.2 h)) hstop
+          · omega
+        subst e2
+        have e1 : L2 = length := by
+          by_cases hc : ip + length > env.src.size
+          · rw [if_pos hc] at hL1; omega
+          · rw [if_neg hc] at hL1; exact hL1.symm
+        subst e1
+        exact lits_then_match env N hw st ip L2 h0 hip hrf (by omega) hd0 hL2le.2.1 out b hbsz
+          (rel_lits env st ip L2 L2 out hrel (by omega) b hb (Nat.le_refl _) (by omega)) offset ho1
+    · -- full decoding
+      have hPf : env.partialD = false := by cases h : env.partialD <;> simp_all
+      rw [hPf]
+      simp only [Bool.false_eq_true, if_false, not_false_eq_true, true_or, if_true]
+      by_cases hbadc : ip + length ≠ env.src.size ∨ st.op + length > N
+      · rw [if_pos hbadc]
+        apply Sim.bad
+        intro hv
+        unfold VIter at hv
+        rw [hp] at hv
+        by_cases a : length > env.src.size - ip
+        · rw [if_pos a] at hv; exact hv
+        · rw [if_neg a] at hv
+          by_cases b : ip + length = env.src.size
+          · rw [if_pos b] at hv
+            dsimp only at hv
+            rw [show (List.take length (rem env.src ip)).length = length from litsAt_length env.src ip length (by omega)] at hv
+            rcases hv with hv | hv
+            · exact hP hv
+            · omega
+          · rw [if_neg b] at hv
+            by_cases c : ip + length + 1 = env.src.size
+            · rw [if_pos c] at hv; exact hv
+            · rw [if_neg c] at hv
+              cases hr : readField (env.src[st.ip].toNat % 16) (rem env.src (ip + length + 2)) with
+              | none => rw [hr] at hv; exact hv
+              | some w =>
+                obtain ⟨mlc, inp4⟩ := w
+                rw [hr] at hv
+                dsimp only at hv
+                rw [show (List.take length (rem env.src ip)).length = length from litsAt_length env.src ip length (by omega)] at hv
+                have := readField_suffix _ _ _ _ hr
+                rw [rem_length] at this
+                rcases hv.2.2.1 with hv3 | hv3
+                · exact hP hv3
+                · omega
+      · rw [if_neg hbadc]
+        apply Sim.step (x := copyIn st.buf st.op env.src ip .srcRead length) (copyIn_nb _ _ _ _ _ _)
+        intro b hb
+        apply Sim.pure
+        apply StepPost.of_full
+        rw [if_neg (by omega), if_pos (by omega)] at hp
+        exact ⟨_, hp, rel_lits env st ip length length out hrel (by omega) b hb (Nat.le_refl _) (by omega)⟩
   · rw [if_neg hlast]
     apply Sim.step (copyIn_nb _ _ _ _ _ _)
     intro b hb
     apply Sim.step (rd16_nb _ _)
     intro offset hoff
-    obtain ⟨c1, c2, c3, _⟩ := copyIn_spec _ _ _ _ _ _ _ hb
     obtain ⟨ho1, ho2⟩ := rd16_off16 hoff
     have hw8 := wild8len_le st.op (st.op + length)
-    have hrel' : Rel env b (st.op + length) (out ++ litsAt env.src ip length) := by
-      have := hrel.lits (b := b) (by omega) (fun j hj => c2 j (Or.inl hj)) (litsAt env.src ip length) (by
-        intro i hi
-        rw [litsAt_length env.src ip length (by omega)] at hi
-        rw [c3 i (by omega), litsAt_get env.src ip length i hi])
-      rw [litsAt_length env.src ip length (by omega)] at this
-      exact this
-    apply (copyMatchLbl_sim env N hw ⟨ip + length, st.op + length, b⟩ (ip + length + 2) offset (env.src[st.ip].toNat)
-      (by dsimp only; omega) (by dsimp only; omega) _ hrel').mono
-    · rintro next _ ⟨s', ml, hn, hrf2, h4, _, hmp⟩
-      subst hn
-      rw [ho1] at hmp
-      exact seqPost_of_match env st ip length h0 hip hrf (by omega) out _ s' ml rfl hrf2 h4 hmp
-    · intro hv
-      obtain ⟨v, rest, v1, v2, v3, v4, v5, _, _⟩ := vmatch_of_viter env N st ip length h0 hip hrf (by omega) out hv
-      rw [ho1]
-      exact ⟨v, rest, v1, fun h => by have := v2 h; omega, v3, v4, by dsimp only; omega⟩
+    have hbsz : b.size = N := by rw [(copyIn_spec _ _ _ _ _ _ _ hb).1]; exact hsz
+    exact lits_then_match env N hw st ip length h0 hip hrf (by omega) hd0 (by omega) out b hbsz
+      (rel_lits env st ip length _ out hrel (by omega) b hb (by omega) (by omega)) offset ho1
 
 theorem copy18_nb (buf : Bytes) (op m ip : Nat) : copy18 buf op m ≠ .error (.bad ip) := by
   unfold copy18
@@ -248,12 +408,12 @@ theorem copy18_nb (buf : Bytes) (op m ip : Nat) : copy18 buf op m ≠ .error (.b
 theorem readField_small (nibble : Nat) (inp : List UInt8) (h : nibble ≠ 15) : readField nibble inp = some (nibble, inp) := by
   unfold readField; rw [if_neg h]
 
-/-- the 18-byte shortcut match shared by the two loops: `s1` = state after the literals, `out1` = output after the literals -/
+/-- the 18-byte shortcut match shared by the two loops: `b`, `op` = buffer and position after the literals, `out1` = output after the literals -/
 theorem copy18_post (env : Env) (N : Nat) (hw : WF2 env N) (b : Bytes) (op offset mlc : Nat) (hsz : b.size = N) (hd0 : env.dst0 ≤ op)
     (out1 : List UInt8) (hrel : Rel env b op out1) (hoff8 : 8 ≤ offset) (hoff : offset ≤ 65535) (hml : mlc < 15) (hroom : op + 18 ≤ N)
     (hm : env.dict = .withPrefix64k ∨ (op : Int) - offset ≥ env.low) (hm0 : ¬ (op : Int) - offset < 0)
-    (b2 : Bytes) (hc : copy18 b op ((op : Int) - offset).toNat = .ok b2) (ip' : Nat) :
-    MatchPost env ⟨0, op, b⟩ ip' offset (mlc + 4) out1 ⟨ip', op + mlc + 4, b2⟩ := by
+    (b2 : Bytes) (hc : copy18 b op ((op : Int) - offset).toNat = .ok b2) (ip0 ip' : Nat) :
+    CopyPost env ⟨ip0, op, b⟩ ip' offset (mlc + 4) out1 ⟨ip', op + mlc + 4, b2⟩ := by
   have hlow2 := hw.wf.low_le
   have hlen := hrel.len
   refine ⟨rfl, by dsimp only; omega, fun ho => ?_⟩
@@ -262,19 +422,16 @@ theorem copy18_post (env : Env) (N : Nat) (hw : WF2 env N) (b : Bytes) (op offse
     rcases hm with hm | hm
     · have := hw.pfx hm; omega
     · omega
-  refine ⟨by omega, ?_⟩
-  obtain ⟨out2, ho1, ho2, _⟩ := hrel.copy (b := b2) (by omega) e.low offset (mlc + 4) ho (by omega) (by rw [e.size]; omega)
-    (vw_per_of_Per env b2 op offset (mlc + 4) out1.length (by omega) hlen hmL (e.mono (by omega)).per)
-  refine ⟨out2, ho1, ?_⟩
+  have := ext_post env b b2 op offset (mlc + 4) out1 hrel (by omega) hmL ho (e.mono (by omega)) (by omega)
   dsimp only
   rw [show op + mlc + 4 = op + (mlc + 4) by omega]
-  exact ho2
+  exact this
 
 /-- the two-stage shortcut of the safe loop -/
 theorem shortcut_sim (env : Env) (N : Nat) (hw : WF2 env N) (st : St) (token : Nat) (h0 : st.ip < env.src.size)
     (htok : token = env.src[st.ip].toNat) (hc1 : token / 16 ≠ 15) (hc2 : st.ip + 1 + 16 < env.src.size) (hc3 : st.op + 32 ≤ N)
     (hsz : st.buf.size = N) (hd0 : env.dst0 ≤ st.op) (out : List UInt8) (hrel : Rel env st.buf st.op out) :
-    Sim (StepPost env st out) (VIter N st.op out.length (rem env.src st.ip)) (shortcut env st token) := by
+    Sim (StepPost env N st out) (VIter env N st.op out.length (rem env.src st.ip)) (shortcut env st token) := by
   subst htok
   have hlow2 := hw.wf.low_le
   have hlt := env.src[st.ip].toNat_lt
@@ -288,18 +445,13 @@ theorem shortcut_sim (env : Env) (N : Nat) (hw : WF2 env N) (st : St) (token : N
   intro b hb
   apply Sim.step (rd16_nb _ _)
   intro offset hoff
-  obtain ⟨c1, c2, c3, _⟩ := copyIn_spec _ _ _ _ _ _ _ hb
+  have hbsz : b.size = N := by rw [(copyIn_spec _ _ _ _ _ _ _ hb).1]; exact hsz
   obtain ⟨ho1, ho2⟩ := rd16_off16 hoff
   have ho3 := (rd16_good env.src _ ho2)
   rw [hoff] at ho3
   simp only [Good] at ho3
-  have hrel' : Rel env b (st.op + env.src[st.ip].toNat / 16) (out ++ litsAt env.src (st.ip + 1) (env.src[st.ip].toNat / 16)) := by
-    have := hrel.lits (b := b) (by omega) (fun j hj => c2 j (Or.inl hj)) (litsAt env.src (st.ip + 1) (env.src[st.ip].toNat / 16)) (by
-      intro i hi
-      rw [litsAt_length env.src _ _ (by omega)] at hi
-      rw [c3 i (by omega), litsAt_get env.src _ _ i hi])
-    rw [litsAt_length env.src _ _ (by omega)] at this
-    exact this
+  have hrel' : Rel env b (st.op + env.src[st.ip].toNat / 16) (out ++ litsAt env.src (st.ip + 1) (env.src[st.ip].toNat / 16)) :=
+    rel_lits env st (st.ip + 1) _ 16 out hrel (by omega) b hb (by omega) (by omega)
   by_cases hsc : env.src[st.ip].toNat % 16 ≠ 15 ∧ offset ≥ 8 ∧
       (env.dict = .withPrefix64k ∨ ((st.op + env.src[st.ip].toNat / 16 : Nat) : Int) - offset ≥ env.low)
   · rw [if_pos hsc]
@@ -309,31 +461,24 @@ theorem shortcut_sim (env : Env) (N : Nat) (hw : WF2 env N) (st : St) (token : N
       apply Sim.step (copy18_nb _ _ _)
       intro b2 hb2
       apply Sim.pure
-      have hmp := copy18_post env N hw b (st.op + env.src[st.ip].toNat / 16) offset (env.src[st.ip].toNat % 16) (by omega) (by omega)
-        _ hrel' hsc.2.1 ho3 (by omega) (by omega) hsc.2.2 hm0 b2 hb2 (st.ip + 1 + env.src[st.ip].toNat / 16 + 2)
-      rw [ho1] at hmp
-      exact seqPost_of_match env st (st.ip + 1) (env.src[st.ip].toNat / 16) h0 (by omega) hrf (by omega) out _ _ (env.src[st.ip].toNat % 16 + 4) rfl
-        (by dsimp only; rw [readField_small _ _ hsc.1]; simp) (by omega) hmp
+      have hcp := copy18_post env N hw b (st.op + env.src[st.ip].toNat / 16) offset (env.src[st.ip].toNat % 16) hbsz (by omega)
+        _ hrel' hsc.2.1 ho3 (by omega) (by omega) hsc.2.2 hm0 b2 hb2 (st.ip + 1 + env.src[st.ip].toNat / 16)
+        (st.ip + 1 + env.src[st.ip].toNat / 16 + 2)
+      rw [ho1] at hcp
+      exact stepPost_of_match env N st (st.ip + 1) (env.src[st.ip].toNat / 16) h0 (by omega) hrf (by omega) out
+        ⟨st.ip + 1 + env.src[st.ip].toNat / 16, st.op + env.src[st.ip].toNat / 16, b⟩ (env.src[st.ip].toNat % 16 + 4) _ rfl
+        (by rw [readField_small _ _ hsc.1]; simp) (by omega) _
+        ⟨_, env.src[st.ip].toNat % 16 + 4, Nat.le_refl _, hcp, Or.inl ⟨rfl, Or.inl rfl⟩⟩
   · rw [if_neg hsc]
-    apply (copyMatchLbl_sim env N hw ⟨st.ip + 1 + env.src[st.ip].toNat / 16, st.op + env.src[st.ip].toNat / 16, b⟩
-      (st.ip + 1 + env.src[st.ip].toNat / 16 + 2) offset (env.src[st.ip].toNat)
-      (by dsimp only; omega) (by dsimp only; omega) _ hrel').mono
-    · rintro next _ ⟨s', ml, hn, hrf2, h4, _, hmp⟩
-      subst hn
-      rw [ho1] at hmp
-      exact seqPost_of_match env st (st.ip + 1) _ h0 (by omega) hrf (by omega) out _ s' ml rfl hrf2 h4 hmp
-    · intro hv
-      obtain ⟨v, rest, v1, v2, v3, v4, v5, _, _⟩ := vmatch_of_viter env N st (st.ip + 1) _ h0 (by omega) hrf (by omega) out hv
-      rw [ho1]
-      exact ⟨v, rest, v1, fun h => by have := v2 h; omega, v3, v4, by dsimp only; omega⟩
+    exact lits_then_match env N hw st (st.ip + 1) _ h0 (by omega) hrf (by omega) hd0 (by omega) out b hbsz hrel' offset ho1
 
 /-- a valid step has a literal-length field that fits the input -/
-theorem viter_lit (src : Bytes) (N op n ip0 : Nat) (h0 : ip0 < src.size) (hv : VIter N op n (rem src ip0)) :
-    ∃ v rest, readField (src[ip0].toNat / 16) (rem src (ip0 + 1)) = some (v, rest) ∧ v ≤ rest.length := by
+theorem viter_lit (env : Env) (N op n ip0 : Nat) (h0 : ip0 < env.src.size) (hv : VIter env N op n (rem env.src ip0)) :
+    ∃ v rest, readField (env.src[ip0].toNat / 16) (rem env.src (ip0 + 1)) = some (v, rest) ∧ v ≤ rest.length := by
   unfold VIter at hv
-  rw [rem_cons src ip0 h0] at hv
+  rw [rem_cons env.src ip0 h0] at hv
   simp only [pstep] at hv
-  cases hr : readField (src[ip0].toNat / 16) (rem src (ip0 + 1)) with
+  cases hr : readField (env.src[ip0].toNat / 16) (rem env.src (ip0 + 1)) with
   | none => rw [hr] at hv; exact hv.elim
   | some w =>
     obtain ⟨v, rest⟩ := w
@@ -343,10 +488,21 @@ theorem viter_lit (src : Bytes) (N op n ip0 : Nat) (h0 : ip0 < src.size) (hv : V
     · rw [if_pos hgt] at hv; exact hv.elim
     · exact ⟨v, rest, rfl, by omega⟩
 
+/-- the literal-length field of a valid step is accepted by `read_variable_length` -/
+theorem vlit_of_viter (env : Env) (N op n ip0 token : Nat) (h0 : ip0 < env.src.size) (htok : token = env.src[ip0].toNat)
+    (hv : VIter env N op n (rem env.src ip0)) :
+    ∃ v rest, readField (token / 16) (rem env.src (ip0 + 1)) = some (v, rest) ∧ (v ≥ 15 → ip0 + 1 + (v - 15) / 255 + 1 + 15 ≤ env.src.size) := by
+  obtain ⟨v, rest, h1, h2⟩ := viter_lit env N op n ip0 h0 hv
+  rw [← htok] at h1
+  refine ⟨v, rest, h1, fun h15 => ?_⟩
+  have := readField_rest_length _ _ _ _ h1 h15 (by have := env.src[ip0].toNat_lt; omega)
+  rw [rem_length] at this
+  omega
+
 /-- **one iteration of the safe loop is one step of the specification** -/
 theorem safeIter_sim (env : Env) (N : Nat) (hw : WF2 env N) (st : St)
-    (hsz : st.buf.size = N) (hd0 : env.dst0 ≤ st.op) (out : List UInt8) (hrel : Rel env st.buf st.op out) :
-    Sim (StepPost env st out) (VIter N st.op out.length (rem env.src st.ip)) (safeIter env st) := by
+    (hsz : st.buf.size = N) (hd0 : env.dst0 ≤ st.op) (hop : st.op ≤ N) (out : List UInt8) (hrel : Rel env st.buf st.op out) :
+    Sim (StepPost env N st out) (VIter env N st.op out.length (rem env.src st.ip)) (safeIter env st) := by
   unfold safeIter
   apply Sim.step (rd8_nb _ _)
   intro token htok
@@ -359,16 +515,9 @@ theorem safeIter_sim (env : Env) (N : Nat) (hw : WF2 env N) (st : St)
   · rw [if_pos hsc]
     exact shortcut_sim env N hw st token h0 htok hsc.1 hsc.2.1 hsc.2.2 hsz hd0 out hrel
   · rw [if_neg hsc]
-    apply Sim.bind ((litLen_sim env.src (st.ip + 1) token).mono (fun a _ h => h) (by
-      intro hv
-      obtain ⟨v, rest, h1, h2⟩ := viter_lit env.src N st.op out.length st.ip h0 hv
-      rw [← htok] at h1
-      refine ⟨v, rest, h1, fun h15 => ?_⟩
-      have := readField_rest_length _ _ _ _ h1 h15 (by have := env.src[st.ip].toNat_lt; omega)
-      rw [rem_length] at this
-      omega))
+    apply Sim.bind ((litLen_sim env.src (st.ip + 1) token).mono (fun a _ h => h) (vlit_of_viter env N st.op out.length st.ip token h0 htok))
     intro r _ hr
     obtain ⟨hr1, hr2, hr3, _⟩ := hr
-    exact safeLit_sim env N hw st r.2 token r.1 h0 htok (by omega) hr1 hsz hd0 out hrel
+    exact safeLit_sim env N hw st r.2 token r.1 h0 htok (by omega) hr1 hsz hd0 hop out hrel
 
 end LZ4V.Model.Decode
